@@ -3,6 +3,7 @@ C06 — derive_more::Debug without attributes is indistinguishable from std Debu
 -/
 import Dm.Model.DebugTuple
 import Dm.Model.FmtExpand
+import Dm.Lemmas.DebugTree
 
 namespace Dm.Props.C06
 open Dm.Dbg
@@ -48,6 +49,119 @@ theorem tuple_eq_std_counterexample :
       dmTuple name fs true o ≠ stdTuple name fs true o := by
   refine ⟨['T'], [fun o => if o.rest = 0 then ['a'] else ['b']], { alt := true, rest := 1 }, ?_⟩
   decide
+
+/-! ### `Padded::write_str` as written, and the builder as a sequence of calls -/
+
+/-- The `split_inclusive('\n')` loop of `Padded::write_str` writes exactly the character-level
+specification: four spaces in front of every character that follows a newline (or the start). -/
+theorem padded_loop_is_pad (st : Bool) (s : List Char) : paddedWrite st s = pad st s :=
+  paddedWrite_eq_pad s st
+
+/-- The indentation a wrapped value gets does not depend on how it cuts its output into
+`write_str` calls (an empty call, a call ending in the middle of a line, one call per character, ...). -/
+theorem padded_chunking_independent (st : Bool) (c1 c2 : List (List Char))
+    (h : c1.flatten = c2.flatten) : paddedWrites st c1 = paddedWrites st c2 := by
+  rw [paddedWrites_eq_pad, paddedWrites_eq_pad, h]
+
+/-- The call-by-call model of the crate's `DebugTuple` (field counter, `empty_name`, one `Padded`
+per field) writes what the text-level model `dmTuple` says, for fields given as write scripts. -/
+theorem tuple_code_eq_model (name : List Char) (fs : List FieldScript) (ex : Bool) (o : Opts) :
+    dmTupleCode name fs ex o
+      = dmTuple name (fs.map fun (s : FieldScript) (o : Opts) => (s o).flatten) ex o := by
+  have hp : (paddedWrite true ['.', '.', '\n']).1 = padStr ['.', '.', '\n'] := by
+    rw [paddedWrite_eq_pad]; rfl
+  cases ha : o.alt
+  · simp only [dmTupleCode, dmTuple, ha, dmFieldsCode_flat o ha fs 0]
+    cases fs <;> simp
+  · simp only [dmTupleCode, dmTuple, ha, dmFieldsCode_pretty o ha fs 0, hp]
+    cases fs <;> simp
+
+/-! ### Nesting: values that are builder output all the way down -/
+
+mutual
+  theorem nested_plain_val : ∀ (v : Val) (o : Opts), o.rest = 0 → v.fmt true o = v.fmt false o
+    | .leaf _, _, _ => rfl
+    | .tuple n vs ex, o, h => by
+      simp only [Val.fmt, if_true, Bool.false_eq_true, if_false, dmTuple_eq_text, stdTuple_eq_text]
+      cases ha : o.alt
+      · simp only [Bool.false_eq_true, if_false]
+        exact congrArg (tupleText n · ex false) (nested_plain_vals vs o h)
+      · simp only [if_true]
+        have : o = freshAlt := opts_fresh_of o ha h
+        subst this
+        exact congrArg (tupleText n · ex true) (nested_plain_vals vs freshAlt h)
+    | .strukt n ns vs ex, o, h => by
+      simp only [Val.fmt, stdStruct_eq_text]
+      rw [nested_plain_vals vs o h]
+  theorem nested_plain_vals : ∀ (vs : Vals) (o : Opts), o.rest = 0 →
+      ((vs.fmts true).map fun f => f o) = ((vs.fmts false).map fun f => f o)
+    | .nil, _, _ => rfl
+    | .cons v vs, o, h => by
+      simp only [Vals.fmts, List.map_cons, nested_plain_val v o h, nested_plain_vals vs o h]
+end
+
+/-- **Nesting, any depth.** A value built from tuple structs / tuple variants (printed by the crate's
+`DebugTuple` under `derive_more::Debug`, by core's under std's derive), named structs / variants
+(core's `DebugStruct` under both) and arbitrary leaves prints identically under `{:?}` and `{:#?}`
+— the formatter configurations without width, fill, precision, sign or hex — whatever the leaves do. -/
+theorem nested_eq_std (v : Val) (o : Opts) (h : o.rest = 0) : v.fmt true o = v.fmt false o :=
+  nested_plain_val v o h
+
+mutual
+  theorem nested_insens_val : ∀ (v : Val), v.Insens →
+      (∀ o : Opts, v.fmt true o = v.fmt false o)
+      ∧ (∀ (d : Bool) (o : Opts), o.alt = true → v.fmt d o = v.fmt d freshAlt)
+    | .leaf f, h => ⟨fun _ => rfl, fun _ o ha => h o ha⟩
+    | .tuple n vs ex, h => by
+      obtain ⟨p, q⟩ := nested_insens_vals vs h
+      refine ⟨fun o => ?_, fun d o ha => ?_⟩
+      · simp only [Val.fmt, if_true, Bool.false_eq_true, if_false, dmTuple_eq_text, stdTuple_eq_text]
+        cases ha : o.alt
+        · simp only [Bool.false_eq_true, if_false, p o]
+        · simp only [if_true, q false o ha, p freshAlt]
+      · cases d
+        · simp only [Val.fmt, Bool.false_eq_true, if_false, stdTuple_eq_text, ha, q false o ha]
+          rfl
+        · simp only [Val.fmt, if_true, dmTuple_eq_text, ha]
+          rfl
+    | .strukt n ns vs ex, h => by
+      obtain ⟨p, q⟩ := nested_insens_vals vs h
+      refine ⟨fun o => ?_, fun d o ha => ?_⟩
+      · simp only [Val.fmt, stdStruct_eq_text, p o]
+      · simp only [Val.fmt, stdStruct_eq_text, ha, q d o ha]
+        rfl
+  theorem nested_insens_vals : ∀ (vs : Vals), vs.Insens →
+      (∀ o : Opts, ((vs.fmts true).map fun f => f o) = ((vs.fmts false).map fun f => f o))
+      ∧ (∀ (d : Bool) (o : Opts), o.alt = true →
+          ((vs.fmts d).map fun f => f o) = ((vs.fmts d).map fun f => f freshAlt))
+    | .nil, _ => ⟨fun _ => rfl, fun _ _ _ => rfl⟩
+    | .cons v vs, h => by
+      obtain ⟨p, q⟩ := nested_insens_val v h.1
+      obtain ⟨ps, qs⟩ := nested_insens_vals vs h.2
+      refine ⟨fun o => ?_, fun d o ha => ?_⟩
+      · simp only [Vals.fmts, List.map_cons, p o, ps o]
+      · simp only [Vals.fmts, List.map_cons, q d o ha, qs d o ha]
+end
+
+/-- **Nesting under every formatter configuration** (width, fill, precision, sign, `0`, hex too):
+equal whenever the leaves ignore those options in alternate mode, at any depth. The leaf condition
+cannot be dropped: `tuple_eq_std_counterexample`. -/
+theorem nested_eq_std_all_options (v : Val) (h : v.Insens) (o : Opts) :
+    v.fmt true o = v.fmt false o :=
+  (nested_insens_val v h).1 o
+
+/-- Non-vacuity: `Outer(Inner { a: "x\ny", b: Unit }, ..)` at depth 2, multi-line leaf, printed
+under `{:#?}`; and the hypotheses of the all-options form hold for it. -/
+def sampleVal : Val :=
+  .tuple ['O'] (.cons (.strukt ['I'] [['a'], ['b']]
+      (.cons (.leaf fun _ => ['x', '\n', 'y']) (.cons (.tuple ['U'] .nil true) .nil)) true) .nil) false
+
+example : sampleVal.fmt true freshAlt
+    = "O(\n    I {\n        a: x\n        y,\n        b: U,\n    },\n    ..\n)".toList := by decide
+example : sampleVal.Insens := by
+  simp [sampleVal, Val.Insens, Vals.Insens]
+example : paddedWrites true [['a', '\n'], [], ['\n', 'b']] = (pad true ['a', '\n', '\n', 'b']) := by decide
+example : (paddedWrites true [['a', '\n'], [], ['\n', 'b']]).1 = "    a\n    \n    b".toList := by decide
 
 /-! ### Which builder calls the derive makes (`debug.rs`) -/
 open Dm.FmtX in
